@@ -273,6 +273,9 @@ def simplify_math_iterators(source: str) -> str:
                 continue
             if node.func.id != "sum":
                 continue
+            if len(arg.args) == 3 and not core.match_template(arg.args[2], ast.Constant(value=1)):
+                # The closed form is that of consecutive integers
+                continue
             yield node, _sum_range(arg)
 
         elif core.match_template(arg, basic_collection_template):
